@@ -129,10 +129,48 @@ const (
 	clFresh   = 3 // reference initialised empty (cache, journal, map filled elsewhere in the function)
 	clShared  = 4 // reference assigned from the source: both sides alias one object
 	clMissing = 5 // never mentioned: zero value in the copy
+	clElems   = 6 // new container whose elements are taken from the source (elements shared)
 )
+
+// freshLocals: identifiers a function binds (:=) to a freshly built value
+// (make / new / composite literal / a DeepCopy result / a dereferenced copy).
+var freshLocals = map[string]bool{}
+
+func collectFreshLocals(body ast.Node) {
+	freshLocals = map[string]bool{}
+	ast.Inspect(body, func(n ast.Node) bool {
+		as, ok := n.(*ast.AssignStmt)
+		if !ok || as.Tok != token.DEFINE {
+			return true
+		}
+		for i, l := range as.Lhs {
+			id, ok := l.(*ast.Ident)
+			if !ok || i >= len(as.Rhs) {
+				continue
+			}
+			switch r := as.Rhs[i].(type) {
+			case *ast.CallExpr:
+				f := exprStr(r.Fun)
+				if f == "make" || f == "new" || strings.HasSuffix(f, ".DeepCopy") || strings.HasSuffix(f, ".deepCopy") {
+					freshLocals[id.Name] = true
+				}
+			case *ast.CompositeLit:
+				freshLocals[id.Name] = true
+			case *ast.StarExpr: // vCpy := *value
+				freshLocals[id.Name] = true
+			}
+		}
+		return true
+	})
+}
 
 func classifyRHS(e ast.Expr) int {
 	switch x := e.(type) {
+	case *ast.Ident:
+		if freshLocals[x.Name] {
+			return clFresh
+		}
+		return clShared
 	case *ast.CallExpr:
 		s := exprStr(x.Fun)
 		switch {
@@ -181,9 +219,10 @@ func fieldsOf(files map[string]*ast.File, name string) [][2]string {
 }
 
 type seenT struct {
-	direct int  // best class of a direct initialisation / assignment / Store (0 = none)
-	elem   bool // filled element by element
-	elemCl int
+	direct     int  // best class of a direct initialisation / assignment / Store (0 = none)
+	elem       bool // filled element by element
+	elemCl     int  // best class of an element store
+	elemShared bool // some element store takes the element from the source as it is
 }
 
 func better(a, b int) int { // deep beats fresh beats shared
@@ -228,6 +267,9 @@ func scan(body ast.Node, seen map[string]*seenT) {
 					if viaIndex {
 						s.elem = true
 						s.elemCl = better(s.elemCl, cl)
+						if cl == clShared {
+							s.elemShared = true
+						}
 					} else {
 						s.direct = better(s.direct, cl)
 					}
@@ -245,6 +287,9 @@ func scan(body ast.Node, seen map[string]*seenT) {
 								if len(c.Args) == 2 { // sync.Map: element-wise
 									s.elem = true
 									s.elemCl = better(s.elemCl, cl)
+									if cl == clShared {
+										s.elemShared = true
+									}
 								} else {
 									s.direct = better(s.direct, cl)
 								}
@@ -280,8 +325,10 @@ func inventory(repo string) []fieldRow {
 					scan(f.Body, seen)
 				}
 			}
+			collectFreshLocals(fd.Body)
 			scan(fd.Body, seen)
 			if dc := findFunc(files[cf.File], "Validator", "DeepCopy"); dc != nil { // DeepCopy = PartialCopy + the delegation list
+				collectFreshLocals(dc.Body)
 				scan(dc.Body, seen)
 			} else {
 				fmt.Fprintln(os.Stderr, "copytable: Validator.DeepCopy not found")
@@ -292,8 +339,10 @@ func inventory(repo string) []fieldRow {
 			for _, f := range []string{"address", "data", "db", "addrHash"} {
 				seen[f] = &seenT{direct: clShared}
 			}
+			collectFreshLocals(fd.Body)
 			scan(fd.Body, seen)
 		default:
+			collectFreshLocals(fd.Body)
 			scan(fd.Body, seen)
 		}
 		if cf.Recv == "WithdrawRecord" { // r := *u copies every field first
@@ -311,12 +360,14 @@ func inventory(repo string) []fieldRow {
 				row.Class = clMissing
 			case !row.Ref:
 				row.Class = clValue
+			case s.elem && s.elemShared:
+				row.Class = clElems // at least one element is taken over as it is
 			case s.direct == clDeep || (s.elem && s.elemCl == clDeep):
 				row.Class = clDeep
 			case s.direct == clFresh && s.elem && s.elemCl != clShared && s.elemCl != 0:
 				row.Class = clDeep // new container filled element by element with rebuilt elements
 			case s.direct == clFresh && s.elem:
-				row.Class = clShared // new container, elements taken from the source
+				row.Class = clElems // new container, elements taken from the source
 			case s.direct == clFresh:
 				row.Class = clFresh
 			case s.direct == 0 && s.elem:
@@ -327,8 +378,141 @@ func inventory(repo string) []fieldRow {
 			rows = append(rows, row)
 		}
 	}
+	// structs copied by value: their plain fields are copied, their reference fields shared
+	for _, st := range []string{"Account", "Extension"} {
+		for _, f := range fieldsOf(files, st) {
+			row := fieldRow{Struct: st, Field: f[0], Type: f[1], Ref: refType(f[1]) && f[1] != "ExtV1"}
+			if f[1] == "common.Hash" || f[1] == "ExtV1" {
+				row.Ref = false
+			}
+			if row.Ref {
+				row.Class = clShared
+			} else {
+				row.Class = clValue
+			}
+			rows = append(rows, row)
+		}
+	}
 	sort.SliceStable(rows, func(i, j int) bool { return rows[i].Struct < rows[j].Struct })
 	return rows
+}
+
+// ---- in-place mutation inventory ---------------------------------------------------
+// A field the copy shares with its original is harmless only while nobody writes
+// the shared object in place.  For every shared field name the non-test sources of
+// core/state and staking are searched for in-place writes through that field:
+// append(X.F, ..) (may write the shared backing array), X.F[i] = .., X.F[i]++,
+// copy(X.F.., ..), sort.*(X.F), and mutating big.Int methods on X.F.  For a rebuilt
+// container with shared elements (class 6) the same patterns one index deeper.
+
+type site struct{ Field, Func, What string }
+
+var bigMutators = map[string]bool{"Add": true, "Sub": true, "Mul": true, "Div": true, "Mod": true, "Quo": true, "Rem": true,
+	"Exp": true, "Neg": true, "Abs": true, "Set": true, "SetInt64": true, "SetUint64": true, "SetBytes": true, "SetString": true,
+	"SetBit": true, "Lsh": true, "Rsh": true, "And": true, "Or": true, "Xor": true, "Not": true, "Sqrt": true, "QuoRem": true, "DivMod": true}
+
+// baseField: the field name an expression denotes, after stripping `depth` index / slice levels.
+func baseField(e ast.Expr, depth int) (string, bool) {
+	for {
+		switch x := e.(type) {
+		case *ast.ParenExpr:
+			e = x.X
+			continue
+		case *ast.SliceExpr:
+			e = x.X
+			continue
+		case *ast.IndexExpr:
+			if depth == 0 {
+				return "", false
+			}
+			depth--
+			e = x.X
+			continue
+		case *ast.SelectorExpr:
+			if depth != 0 {
+				return "", false
+			}
+			return x.Sel.Name, true
+		}
+		return "", false
+	}
+}
+
+func inplaceSites(repo string, fields map[string]int) []site {
+	var out []site
+	fset := token.NewFileSet()
+	for _, dir := range []string{"core/state", "staking"} {
+		pkgs, err := parser.ParseDir(fset, filepath.Join(repo, dir), func(fi os.FileInfo) bool {
+			n := fi.Name()
+			return !strings.HasSuffix(n, "_test.go") && !strings.HasPrefix(n, "zz_verif")
+		}, 0)
+		if err != nil {
+			fmt.Fprintln(os.Stderr, "copytable: cannot parse", dir, err)
+			os.Exit(2)
+		}
+		for _, pkg := range pkgs {
+			var names []string
+			for n := range pkg.Files {
+				names = append(names, n)
+			}
+			sort.Strings(names)
+			for _, fn := range names {
+				for _, d := range pkg.Files[fn].Decls {
+					fd, ok := d.(*ast.FuncDecl)
+					if !ok || fd.Body == nil {
+						continue
+					}
+					fname := dir + ":" + fd.Name.Name
+					hit := func(e ast.Expr, extra int, what string) {
+						for f, depth := range fields {
+							if name, ok := baseField(e, depth+extra); ok && name == f {
+								out = append(out, site{f, fname, what})
+							}
+						}
+					}
+					ast.Inspect(fd.Body, func(n ast.Node) bool {
+						switch x := n.(type) {
+						case *ast.AssignStmt:
+							for _, l := range x.Lhs {
+								if ix, ok := l.(*ast.IndexExpr); ok {
+									hit(ix.X, 0, "element assignment")
+								}
+								if st, ok := l.(*ast.StarExpr); ok { // *X.F = ..
+									hit(st.X, 0, "store through the pointer")
+								}
+							}
+						case *ast.IncDecStmt:
+							if ix, ok := x.X.(*ast.IndexExpr); ok {
+								hit(ix.X, 0, "element increment")
+							}
+						case *ast.CallExpr:
+							fun := exprStr(x.Fun)
+							switch {
+							case fun == "append" && len(x.Args) > 0:
+								hit(x.Args[0], 0, "append")
+							case fun == "copy" && len(x.Args) > 0:
+								hit(x.Args[0], 0, "copy into")
+							case strings.HasPrefix(fun, "sort.") && len(x.Args) > 0:
+								hit(x.Args[0], 0, "sort")
+							default:
+								if sel, ok := x.Fun.(*ast.SelectorExpr); ok && bigMutators[sel.Sel.Name] {
+									hit(sel.X, 0, "big.Int "+sel.Sel.Name)
+								}
+							}
+						}
+						return true
+					})
+				}
+			}
+		}
+	}
+	sort.Slice(out, func(i, j int) bool {
+		if out[i].Field != out[j].Field {
+			return out[i].Field < out[j].Field
+		}
+		return out[i].Func+out[i].What < out[j].Func+out[j].What
+	})
+	return out
 }
 
 // copyFlags reads the two findings' code sites: does deepCopy carry the
@@ -384,13 +568,52 @@ func copyTable(repo, out string) {
 	var sb strings.Builder
 	sb.WriteString("(* GENERATED by harness/cmd/c10 copytable from core/state of the working tree. Do not edit. *)\n")
 	sb.WriteString("From Coq Require Import List String NArith.\nImport ListNotations.\nLocal Open Scope string_scope.\n")
-	sb.WriteString("(* struct, field, is a reference type, class: 1 value, 2 deep, 3 fresh, 4 shared, 5 missing *)\n")
+	sb.WriteString("(* struct, field, is a reference type, class: 1 value, 2 deep, 3 fresh, 4 shared, 5 missing, 6 new container with shared elements *)\n")
 	sb.WriteString("Definition copy_table : list (string * string * bool * N) := [\n")
 	for i, r := range rows {
 		if i > 0 {
 			sb.WriteString(";\n")
 		}
 		sb.WriteString(fmt.Sprintf("  (\"%s\", \"%s\", %s, %d%%N)", r.Struct, r.Field, vf.Bool(r.Ref), r.Class))
+	}
+	sb.WriteString("].\n")
+	// numeric form for the aliasing layer: struct number, field number, class
+	structNo := map[string]int{}
+	var structs []string
+	for _, r := range rows {
+		if _, ok := structNo[r.Struct]; !ok {
+			structNo[r.Struct] = len(structs)
+			structs = append(structs, r.Struct)
+		}
+	}
+	sb.WriteString("(* struct number, field number (position in copy_table), class *)\nDefinition copy_table_n : list (N * N * N) := [\n")
+	for i, r := range rows {
+		if i > 0 {
+			sb.WriteString(";\n")
+		}
+		sb.WriteString(fmt.Sprintf("  (%d%%N, %d%%N, %d%%N)", structNo[r.Struct], i, r.Class))
+	}
+	sb.WriteString("].\n")
+	// in-place writes through the fields the copy shares (depth 0) or whose elements it shares (depth 1)
+	shared := map[string]int{}
+	for _, r := range rows {
+		if !r.Ref || r.Field == "db" {
+			continue // the database handle (monotone store) and the back pointer to the owning StateDB
+		}
+		if r.Class == clShared {
+			shared[r.Field] = 0
+		}
+		if r.Class == clElems {
+			shared[r.Field] = 1
+		}
+	}
+	sites := inplaceSites(repo, shared)
+	sb.WriteString("(* in-place writes through a shared field: field, function, what *)\nDefinition inplace_sites : list (string * string * string) := [\n")
+	for i, st := range sites {
+		if i > 0 {
+			sb.WriteString(";\n")
+		}
+		sb.WriteString(fmt.Sprintf("  (\"%s\", \"%s\", \"%s\")", st.Field, st.Func, st.What))
 	}
 	sb.WriteString("].\n")
 	sb.WriteString(fmt.Sprintf("Definition deepcopy_keeps_delegations : bool := %s.\nDefinition copy_marks_dirty_always : bool := %s.\n", vf.Bool(fl.KeepDlgs), vf.Bool(fl.DirtyAlways)))
